@@ -34,6 +34,10 @@ let: z = amount * 2
 match: contains("CHARLIE") and z > 50
 category: Shopping
 field: item = [r.item for r in orders if r.amount == txn.amount]
+
+[Ordered]
+match: (hits := [r for r in orders if r.amount == txn.amount]) and len(hits) > 0 and (z := 1) > 0
+tags: ordered
 '''
 R2 = '''# rules two: same rule names and expression texts, different meaning
 big = amount > 400
@@ -57,6 +61,11 @@ subcategory: Toys
 [Apple]
 match: contains("APLPAY")
 category: Wallet
+
+[Hits]
+let: hits = [r for r in orders if r.amount > 1000]
+match: len(hits) > 0
+category: Refunded
 '''
 # R3 / R4: read with rule_mode most_specific (first line, decoded by _load); identical rule names and match expressions,
 # only the priorities differ - so anything remembered per expression text across loads (a specificity, a compiled matcher,
@@ -140,6 +149,11 @@ EXPRS = {
     'e4': 'description.replace("Alfa", "x")',
     'e5': '"a b" + description',
     'e6': '"a  b" + description',
+    # names bound by := in one evaluation (successful or failing) and read free by a later one
+    'e7': '(amt2 := amount * 2) > 50 and (lim2 := 5) > 0',
+    'e8': 'amt2 > 10 or lim2 > 1',
+    'e9': '(big2 := amount) > 0 and (description := "zz") == "zz" and amount < "x"',
+    'e10': 'big2 > 1 or description == "zz"',
 }
 
 
